@@ -242,6 +242,11 @@ func body04(s scn, f fault, probe bool) Body {
 		case "cutreset":
 			c.C.CutReadAt = c.HsIn + f.k
 			c.C.CutReset = true
+		case "stall":
+			// the server falls silent for good after byte k of its answer and keeps the connection
+			// up, under a context with a 30 s deadline: the call has to end (by the read time-out
+			// inside a packet, by the deadline between packets), whatever packet the silence falls into
+			c.C.StallReadAt = c.HsIn + f.k
 		case "wfail":
 			c.C.FailWriteAt = c.HsLen + f.k
 		case "callback":
@@ -319,11 +324,25 @@ func body04(s scn, f fault, probe bool) Body {
 				cancel()
 			})
 		}
+		stallDeadline := 30 * time.Second
+		if f.kind == "stall" {
+			// a server that falls silent BETWEEN packets is only slow, and waiting for it is right;
+			// the caller's own deadline ends that wait. Inside a packet the read time-out must end
+			// it much earlier; what must never happen is a read that nothing bounds
+			at := time.Now().Add(stallDeadline)
+			vsched.RegisterTimer(at)
+			var cancel context.CancelFunc
+			ctx, cancel = context.WithDeadline(ctx, at)
+			defer cancel()
+		}
 		t0, st0 := time.Now(), vsched.Stolen()
 		derr := c.Cl.Do(ctx, q)
 		el := time.Since(t0) - (vsched.Stolen() - st0)
 		name := "C04/" + s.name
 		limit := 3*time.Second + time.Second + time.Second
+		if f.kind == "stall" {
+			limit += stallDeadline
+		}
 		if derr != nil && el > limit {
 			return Outcome{Key: name + "/slow-return", Detail: fmt.Sprintf("Do returned %v after %v of fake time (limit %v)", derr, el, limit), Obs: "slow"}
 		}
@@ -446,6 +465,11 @@ func C04(c *vk.Ctx) {
 		}
 		for k := 0; k < sb; k += 7 {
 			jobs = append(jobs, job{s, fault{kind: "cutreset", k: k}, bb, false})
+		}
+		if core || s.name == "select-telemetry" {
+			for k := 0; k < sb; k++ {
+				jobs = append(jobs, job{s, fault{kind: "stall", k: k}, 0, false})
+			}
 		}
 		for k := 0; k < cb; k++ {
 			if k%stride == 0 || k == cb-1 {
